@@ -10,7 +10,7 @@
 (* the corresponding token.  Every project is emitted with the unsplit     *)
 (* document and replayed on the real build (catalogs compared).            *)
 (***************************************************************************)
-EXTENDS Pools, TLC, Json
+EXTENDS Catalog, TLC, Json
 
 CONSTANTS MaxCuts, DocIds
 
@@ -18,7 +18,6 @@ Res(f, name) == [cls |-> "ok", file |-> name, path |-> name]
 I == INSTANCE Inc WITH ResolveName <- Res, Banned <- {}
 
 D(k, p, e, b, c) == [t |-> "D", k |-> k, p |-> p, a |-> "", e |-> e, b |-> b, c |-> c]
-CloseTok == [t |-> "C", k |-> ")", p |-> <<>>, a |-> "", e |-> FALSE, b |-> "", c |-> ""]
 IncTok(n) == [t |-> "I", k |-> "INCLUDE", p |-> <<n>>, a |-> "", e |-> FALSE, b |-> "", c |-> ""]
 
 Docs ==
@@ -96,6 +95,12 @@ Transparent ==
   ELSE /\ Split.res = Whole.res
        /\ Split.res = "ok" => ShapeOf(Split.T) = ShapeOf(Whole.T)
        /\ Split.res = "err" => Split.err.cls = Whole.err.cls
+
+\* ... and the catalog built from the split project's tree is the catalog of the unsplit document (guards Catalog.tla
+\* against rules keyed by file or position instead of by the directive)
+CatOf(T) == LET X == Expand(T)  C == RunCatalog(T, X) IN
+            IF C.res = "ok" THEN [res |-> "ok", cls |-> "", skel |-> <<Skeleton(C)>>] ELSE [res |-> "err", cls |-> C.err.cls, skel |-> <<>>]
+CatalogSame == (~HasJsightCut /\ Split.res = "ok" /\ Whole.res = "ok") => CatOf(Split.T) = CatOf(Whole.T)
 
 \* the token of file f at index i as (file, index) -> position in the unsplit document is not needed:
 \* the harness compares messages and maps the split error to its own file/line.
